@@ -65,6 +65,7 @@ CONFIG = {
 PATHS = ["smc", "csmc", "ct_smc", "ct_csmc", "rw", "est"]
 ALGS = [("imp", 1), ("impk", 2), ("impk", 1), ("impk", 5), ("impk", 50)]
 PROPS = ["none", "custom", "custom-partial", "marginal"]
+NET_HI = [5]
 OPNAME = {"smc": "run_smc", "csmc": "run_csmc", "ct_smc": "run_smc", "ct_csmc": "run_csmc", "rw": "random_weighted",
           "est": "estimate_logpdf", "lml": "log_marginal_likelihood_estimate", "lml_t": "log_marginal_likelihood_estimate"}
 
@@ -75,12 +76,14 @@ class Scen:
 
 def _on(sc):
     base = "Importance" if sc.alg == "imp" else "ImportanceK"
-    return f"ChangeTarget({base})" if sc.path.startswith("ct_") else base
+    return "ChangeTarget" if sc.path.startswith("ct_") else base
 
 
-def _cond(sc, extra=None):
+def _cond(sc, extra=None, structural=False):
+    """Structural condition of a signature: the proposal arm (+ particle class for conditional runs);
+    the single-particle qualifier only for structural failures (exceptions, malformed collections)."""
     c = f"proposal-{sc.prop}"
-    if sc.alg == "impk" and sc.K == 1:
+    if structural and sc.alg == "impk" and sc.K == 1:
         c += ",single-particle"
     if extra:
         c += "," + extra
@@ -109,7 +112,7 @@ def make_scen(rng, path, alg, K, prop, family=None, max_lat_outcomes=32, min_lat
     for _ in range(500):
         # scalar_leaves: flips / normals at flat addresses, one scalar argument per table entry, so
         # that every leaf of a trace is a scalar
-        net = G.random_net(rng, family, nested_p=0.0, flip_only=True) if scalar_leaves else G.random_net(rng, family)
+        net = G.random_net(rng, family, n_hi=NET_HI[0], nested_p=0.0, flip_only=True) if scalar_leaves else G.random_net(rng, family, n_hi=NET_HI[0])
         n = len(net)
         obs = [i for i in range(n) if rng.random() < 0.4]
         if not obs:
@@ -228,6 +231,9 @@ def make_fn(sc):
             q = None
         elif sc.prop in ("custom", "custom-partial"):
             q = P(tuple(qparams), sc.qspec)
+        elif sc.aux:
+            # the guide's auxiliary choice is marginalised: only the target's latent addresses are selected
+            q = Marginal(sc.guide, G.selection(net, sc.qidx))
         else:
             q = Marginal(sc.guide)
         alg = Importance(T, q) if sc.alg == "imp" else ImportanceK(T, q, sc.K)
@@ -377,7 +383,7 @@ def check_collection(ctx, sc, rows, out, B):
     lw = np.asarray(out["lw"])
     K = sc.K
     if lw.ndim != 2 or lw.shape != (B, K):
-        ctx.violation(f"C26|op={op}|on={on}|field=collection-shape|cond={_cond(sc)}",
+        ctx.violation(f"C26|op={op}|on={on}|field=collection-shape|cond={_cond(sc, structural=True)}",
                       detail=f"log-weights of a {K}-particle collection have shape {lw.shape[1:]} per run", **_witness(sc, rows, 0, {}))
         return
     ct = sc.path.startswith("ct_")
@@ -519,7 +525,7 @@ def run_or_violation(ctx, sc, thunk, rows=None):
             ctx.violation(f"C26|op=estimate_logpdf|on={m.group(1) if m else 'unknown'}|field=raises|cond={mech}",
                           detail=f"{type(e).__name__}: {_plain(str(e))[:400]}", reached_via=f"{_on(sc)}.{OPNAME[sc.path]}", **w)
             return None
-        cond = _cond(sc) + "," + mech
+        cond = _cond(sc, structural=True) + "," + mech
         ctx.violation(f"C26|op={OPNAME[sc.path]}|on={_on(sc)}|field=raises|cond={cond}", detail=f"{type(e).__name__}: {_plain(str(e))[:400]}", **w)
         return None
 
@@ -530,18 +536,21 @@ def run_or_violation(ctx, sc, thunk, rows=None):
 _PLANS = {}
 
 
-def _shuffled(name, seed, combos):
-    """Full factorial of the arms in a seed-dependent order: consecutive cells cover every combination."""
+def _stratified(name, seed, first, rest):
+    """Plan of arms: cell i gets first[i % len(first)] and the (i // len(first))-th element of a
+    seed-dependent shuffle of `rest` drawn separately for each value of the first arm.  Every
+    len(first) consecutive cells cover every value of the first arm; len(first)*len(rest) cells cover
+    the full factorial."""
     key = (name, seed)
     if key not in _PLANS:
-        order = np.random.default_rng([977, seed, len(combos)]).permutation(len(combos))
-        _PLANS[key] = [combos[k] for k in order]
-    return _PLANS[key]
+        rng = np.random.default_rng([977, seed, len(first), len(rest)])
+        _PLANS[key] = [[rest[k] for k in rng.permutation(len(rest))] for _ in first]
+    per = _PLANS[key]
+    return lambda i: (first[i % len(first)], per[i % len(first)][(i // len(first)) % len(rest)])
 
 
 def cell_plan(ci, seed):
-    combos = [(p, a, q) for p in PATHS for a in ALGS for q in PROPS]
-    path, (alg, K), prop = _shuffled("id", seed, combos)[ci % len(combos)]
+    path, ((alg, K), prop) = _stratified("id", seed, PATHS, [(a, q) for a in ALGS for q in PROPS])(ci)
     return path, alg, K, prop
 
 
@@ -606,10 +615,9 @@ def _two_stage(ctx, name, p1, stage2, sig, witness):
 
 
 def _stat_plan(si, seed):
-    kinds = ["smc", "lml", "sir", "csmc_est", "smc", "lml_t", "sir", "ct_smc"]
+    kinds = ["smc", "lml", "sir", "csmc_est", "ct_smc", "lml_t", "sir", "smc"]
     props = ["none", "custom", "marginal", "marginal-aux", "custom-partial"]
-    combos = [(k, a, q) for k in kinds for a in ALGS for q in props]
-    kind, (alg, K), prop = _shuffled("stat", seed, combos)[si % len(combos)]
+    kind, ((alg, K), prop) = _stratified("stat", seed, kinds, [(a, q) for a in ALGS for q in props])(si)
     return kind, alg, K, prop
 
 
@@ -672,13 +680,23 @@ def stat_cell(ctx, si, N, reps):
         def p_evidence(outs):
             r = np.exp(lml_of(outs) - logZ)
             n = r.shape[0]
-            if exact and not (kind in ("smc", "ct_smc") and False):
-                sd = math.sqrt(max(et.var_w, 0.0) / K) / et.Z / math.sqrt(n)
+            if exact:
+                cv2 = max(et.var_w, 0.0) / K / et.Z**2
+                sd = math.sqrt(cv2 / n)
             else:
+                m = float(np.mean(r))
+                cv2 = float(np.var(r, ddof=1)) / (m * m) if m > 0 else float("inf")
                 sd = float(np.std(r, ddof=1)) / math.sqrt(n)
-            return R.z_pvalue(float(np.mean(r)), 1.0, sd), float(np.mean(r)), sd
+            # the normal approximation of the mean needs an adequate effective sample size; a
+            # heavy-tailed weight distribution (badly mismatched proposal) is not judged
+            if n / (1.0 + cv2) < 400.0:
+                return 1.0, float(np.mean(r)), sd, False
+            return R.z_pvalue(float(np.mean(r)), 1.0, sd), float(np.mean(r)), sd, True
 
-        p1, m1, sd1 = p_evidence(first)
+        p1, m1, sd1, powered = p_evidence(first)
+        if not powered:
+            ctx.count("evidence_low_effective_sample_size_skipped")
+            return
         ctx.count("evidence_tests")
         ctx.count(f"evidence_tests[{kind},{sc.alg}{K},{sc.prop},{sc.family}]")
         ctx.evaluation(fingerprint=("evidence", kind, sc.alg, K, sc.prop, sc.net.sig(), tuple(sc.obs)), nontrivial=True, n=N * reps)
@@ -732,6 +750,8 @@ def stat_cell(ctx, si, N, reps):
                 if qK[x] < 0.03:
                     continue
                 var = qK[x] * m2[x] / ptil[x] ** 2 - 1.0
+                if n / (1.0 + max(var, 0.0)) < 400.0:
+                    continue  # effective sample size too small for the normal approximation
                 ps.append(R.z_pvalue(ysum[x] / n, 1.0, math.sqrt(max(var, 0.0) / n)))
             return min(1.0, min(ps) * len(ps)) if ps else 1.0
 
@@ -751,8 +771,10 @@ def stat_cell(ctx, si, N, reps):
         def p_est(outs):
             e = np.concatenate([np.exp(np.asarray(o["w"], dtype=np.float64)).reshape(N) for o in outs])
             n = e.shape[0]
-            if var <= 0:
-                return 1.0 if np.all(np.abs(e - mean) <= 5e-4 * (abs(mean) + 1e-3)) else 0.0
+            if var <= 1e-12 * mean * mean:
+                return 1.0 if np.all(np.abs(e - mean) <= 1e-3 * abs(mean)) else 0.0
+            if n / (1.0 + var / (mean * mean)) < 400.0:
+                return 1.0
             return R.z_pvalue(float(np.mean(e)), mean, math.sqrt(var / n))
 
         ctx.count("csmc_estimate_tests")
@@ -768,10 +790,11 @@ def stat_cell(ctx, si, N, reps):
 def run(ctx):
     common.import_repo()
     R.selftest()
-    budget = ctx.pick(70.0, 780.0)
-    n_id = ctx.pick(64, 720)
-    n_stat = ctx.pick(32, 240)
-    B = ctx.pick(48, 96)
+    NET_HI[0] = ctx.pick(4, 5)
+    budget = ctx.pick(70.0, 600.0)
+    n_id = ctx.pick(96, 720)
+    n_stat = ctx.pick(48, 320)
+    B = ctx.pick(192, 256)
     N = 2048
     reps = ctx.pick(1, 4)
     ids = list(ctx.my_share(n_id))
